@@ -50,7 +50,9 @@ func newGettyRemoting() *GettyRemoting {
 
 func (g *GettyRemoting) SendSync(msg message.RpcMessage, s getty.Session, callback callbackMethod) (interface{}, error) {
 	if s == nil {
-		s = sessionManager.selectSession(msg)
+		// the session is chosen by what the request says (its xid): the request is the body, the rpc
+		// envelope has no xid
+		s = sessionManager.selectSession(msg.Body)
 	}
 	if s == nil {
 		// no open session to the coordinator: a transport failure like any other
@@ -68,7 +70,9 @@ func (g *GettyRemoting) SendSync(msg message.RpcMessage, s getty.Session, callba
 
 func (g *GettyRemoting) SendAsync(msg message.RpcMessage, s getty.Session, callback callbackMethod) error {
 	if s == nil {
-		s = sessionManager.selectSession(msg)
+		// the session is chosen by what the request says (its xid): the request is the body, the rpc
+		// envelope has no xid
+		s = sessionManager.selectSession(msg.Body)
 	}
 	if s == nil {
 		// no open session to the coordinator: a transport failure like any other
